@@ -216,6 +216,34 @@ func C17(c *run.Check) {
 			}
 		}
 	}
+	// long documents: every number of list items from 1 to 300, each with an
+	// attribute and text, and every number of attributes from 1 to 64 on one element
+	for k := 1; k <= 300; k++ {
+		var sb strings.Builder
+		sb.WriteString("<!doctype html><ul>")
+		for i := 0; i < k; i++ {
+			fmt.Fprintf(&sb, `<li id="i%d" class=c>t%d<!--%d--></li>`, i, i, i)
+		}
+		sb.WriteString("</ul>")
+		c.Evaluations.Add(1)
+		if msg := c17Check(sb.String()); msg != "" {
+			c.Violation(c17Case{Text: fmt.Sprintf("<!doctype html><ul> + %d list items", k), Detail: firstLine(msg)}, fmt.Sprintf("list of %d items: %s", k, firstLine(msg)))
+			break
+		}
+	}
+	for k := 1; k <= 64; k++ {
+		var sb strings.Builder
+		sb.WriteString("<!doctype html><p")
+		for i := 0; i < k; i++ {
+			fmt.Fprintf(&sb, ` a%d="%d"`, i, i)
+		}
+		sb.WriteString(">t</p><p z=1>u</p>")
+		c.Evaluations.Add(1)
+		if msg := c17Check(sb.String()); msg != "" {
+			c.Violation(c17Case{Text: sb.String(), Detail: firstLine(msg)}, fmt.Sprintf("element with %d attributes: %s", k, firstLine(msg)))
+			break
+		}
+	}
 	// documents without a doctype: the statement is about documents that start
 	// with one; whether the others are rejected (the current code) or read is
 	// recorded, not judged - only that the call returns
@@ -283,7 +311,7 @@ func C17(c *run.Check) {
 	c.Sample(`<!doctype html><a x=1 xmlns:q="u" q:y=2 xmlns="d"><p><!--c--></html>t`)
 	c.Set("token_alphabet", strings.Join(c17Tokens, " "))
 	c.Set("max_tokens", maxLen)
-	c.Rule = fmt.Sprintf("a doctype (bare, and with explicit html/head/body) followed by EVERY token string of length <=%d over an %d-token tag-soup alphabet (implied elements, void elements, tables, foreign content, attributes with xmlns declarations and prefixes, comments, text, content after </html> and </body>): cursor tree compared node by node with an independent recursive walk of golang.org/x/net/html's DOM for the same bytes; deep (<=5000) and wide families; 4 byte-order marks x 11 <meta> charset declarations x 9 payloads of high, invalid and multi-byte bytes in text, attribute values and comments (the tree is that of html.Parse for the same bytes: no transcoding); documents without a doctype only have to return; non-trivial = distinct sampled document", maxLen, nt)
+	c.Rule = fmt.Sprintf("a doctype (bare, and with explicit html/head/body) followed by EVERY token string of length <=%d over an %d-token tag-soup alphabet (implied elements, void elements, tables, foreign content, attributes with xmlns declarations and prefixes, comments, text, content after </html> and </body>): cursor tree compared node by node with an independent recursive walk of golang.org/x/net/html's DOM for the same bytes; deep (<=5000) and wide families; every list length 1-300 and every attribute count 1-64; 4 byte-order marks x 11 <meta> charset declarations x 9 payloads of high, invalid and multi-byte bytes in text, attribute values and comments (the tree is that of html.Parse for the same bytes: no transcoding); documents without a doctype only have to return; non-trivial = distinct sampled document", maxLen, nt)
 	c.Assume("golang.org/x/net/html.Parse is the HTML5 parsing algorithm the statement names")
 }
 
